@@ -160,6 +160,24 @@ def r17_3(ctx):
                     ctx.instance(construct(f, "helper-created"), sample={"helper": repr(helper), "tracked_in": [e.attr for e in tracked]})
                     if not tracked:
                         ctx.violation(construct(f, "helper-untracked"), a.loc, "a helper task is appended to workflow.task_list without being recorded for removal in the same block")
+                    # ... and it is appended exactly once: a linking call whose own code also registers its argument in the workflow's
+                    # task_list (found in the callee's effect closure) makes it twice, and the clean-up removes it once
+                    extra = []
+                    for e in tr:
+                        if isinstance(e, Call) and not e.inlined and e.callees and helper in e.args.values():
+                            for q in e.callees:
+                                c0, _, n0 = q.partition(".")
+                                g0 = ctx.repo.lookup_method(c0, n0) if n0 else ctx.repo.functions.get(c0)
+                                if g0 is None:
+                                    continue
+                                for g1 in ctx.eff.reachable([g0], precise=True):
+                                    if any(ef.kind == "mut" and ef.attr == "task_list" and ef.op in ("append", "insert", "extend") for ef in ctx.eff.of(g1)):
+                                        extra.append((e, g1))
+                    same = [x for x in tr if isinstance(x, Mut) and x.attr == "task_list" and x.op in ("append", "insert") and x.args and x.args[-1] == helper]
+                    if len(same) + (1 if extra else 0) != 1:
+                        e0, g1 = extra[0] if extra else (a, None)
+                        ctx.violation(construct(f, "helper-registered-twice"), a.loc, f"the helper task is put into workflow.task_list {len(same)} time(s) here" +
+                                      (f" and once more inside {g1.qualname} (reached from `{e0.name}`)" if g1 else "") + ": the clean-up removes one occurrence, the other stays in the workflow")
                     # the helper appended in one iteration must be an object created in that iteration: an object that comes from
                     # anywhere else (a cache, an earlier iteration) can be appended more than once but is removed only once
                     created_here = isinstance(helper, Obj) and helper.name.startswith("new") and \
